@@ -6,7 +6,7 @@ LEVEL = "exploration"
 
 
 def judge(ctx, proto, job, r):
-    key = [proto, [(m["exp"], m["buf"]) for m in job["msgs"]]]
+    key = [proto, [(m.get("exp"), m["buf"], m.get("filter")) for m in job["msgs"]]]
     ctx.count(key, nontrivial=fuzzrun.nontrivial(r))
     if r.get("skipped"):
         return
@@ -45,8 +45,7 @@ def check(ctx):
     ctx.assumptions += ["universal quantification over all byte strings is explored, not enumerated",
                         "a watchdog 'hang' is judged by C02, not here"]
     n = 200000 if thorough else 20000
-    for proto in ("ipfix", "v9"):
-        pairs = fuzzrun.flow(ctx, proto, thorough, n, measure=False)
+    for proto, pairs in fuzzrun.all_protocols(ctx, thorough, n, False, 1):
         for job, r in pairs:
             judge(ctx, proto, job, r)
         sample(ctx, proto, pairs)
